@@ -467,6 +467,27 @@ impl SourceCache {
         }
     }
 
+    /// verif hook H8: the name-id table as `(path, debug form of the file id, kind)` where kind is
+    /// `memory`, `closed` (a closed in-memory buffer) or `fs`.
+    #[cfg(feature = "verif-hooks")]
+    pub fn verif_entries(&self) -> Vec<(String, String, &'static str)> {
+        self.file_ids
+            .iter()
+            .filter_map(|(name, entry)| match name {
+                SourcePath::Path(p, _) => Some((
+                    p.to_string_lossy().into_owned(),
+                    format!("{:?}", entry.id),
+                    match entry.source {
+                        SourceKind::Filesystem(_) => "fs",
+                        SourceKind::Memory => "memory",
+                        SourceKind::MemoryClosed => "closed",
+                    },
+                )),
+                _ => None,
+            })
+            .collect()
+    }
+
     /// Retrieves the id of a source given a name.
     ///
     /// Note that files added via [Self::add_file] are indexed by their full normalized path (cf
